@@ -9,7 +9,7 @@ from __future__ import annotations
 from dataclasses import dataclass, field
 from typing import Callable, Dict, List, Optional, Tuple
 
-from . import bd, bw, bx, cc, er, ev, ex, fs, fw, ha, hx, hy, hz, lk, on, oo, rd, rt, sh, st, vw, wk
+from . import bd, bw, bx, cc, er, ev, ex, fs, fw, ha, hx, hy, hz, lk, on, oo, rcw, rd, rt, rw, sh, st, vw, wk
 
 
 @dataclass
@@ -57,6 +57,7 @@ RULE_GROUPS: Dict[str, Callable] = {
     'st.finish_predicates': st.rule_finish_predicates,
     'st.ready_strict': st.rule_ready_strict,
     'st.store_contract': st.rule_store_contract,
+    'st.case_selection_worlds': st.rule_case_selection_worlds,
     'rd.launch_gated': rd.rule_launch_gated,
     'rd.field_agreement': rd.rule_field_agreement,
     'rd.switch_indirection': st.rule_switch_indirection_semantic,
@@ -90,7 +91,7 @@ RULE_GROUPS: Dict[str, Callable] = {
     'oo.error_gate': oo.rule_error_gate,
     'oo.recurrent_loop': oo.rule_recurrent_loop,
     'rt.policy_defaults': rt.rule_policy_defaults,
-    'rt.retry_loop': rt.rule_retry_loop,
+    'rt.retry_loop': rw.rule_retry_worlds,
     'ev.pipeline_events': ev.rule_pipeline_events,
     'ev.node_events': ev.rule_node_events,
     'ev.emit_all': ev.rule_emit_all,
@@ -141,8 +142,12 @@ RULE_GROUPS: Dict[str, Callable] = {
     'bw.build_node': bw.rule_build_node,
     'bw.recurrent_validations': bw.rule_recurrent_validations,
     'ha.active_mark_released': ha.rule_active_mark_released,
+    'rcw.recurrent_worlds': rcw.rule_recurrent_worlds,
     'ha.task_registry_only_grows': ha.rule_task_registry_only_grows,
     'ha.executor_wrapper_transparent': ha.rule_executor_wrapper_transparent,
+    'ha.no_blocking_wait_on_loop': ha.rule_no_blocking_wait_on_loop,
+    'ha.pool_job_follows_cancellation': ha.rule_pool_job_follows_cancellation,
+    'ha.verdict_before_own_cancellation': ha.rule_verdict_before_own_cancellation,
     'ha.error_scan_is_the_subdag': ha.rule_error_scan_is_the_subdag,
     'ha.test_and_create_atomic': ha.rule_test_and_create_atomic,
     'ha.no_process_wide_registry': ha.rule_no_process_wide_registry,
@@ -236,7 +241,7 @@ RULES: Dict[str, Tuple[str, str]] = {
     'VL-8': ('bw.defects_rejected', 'a value named by a mark or by the caller is class-checked before its id is computed or it is registered'),
     'VL-9': ('bw.defects_rejected', 'every path of build() (traversal, single node, input = output) rejects a defective node with the specific error'),
     'VL-10': ('bw.defects_rejected', 'declaration sets free of defects build, one per mark kind'),
-    'RC-11': ('ha.active_mark_released', 'the running mark of a recurrent subgraph is released on every regular completion of its driver'),
+    'RC-11': ('rcw.recurrent_worlds', 'the running mark of a recurrent subgraph is released on every regular completion of its driver'),
     'BN-7': ('bw.build_node', 'deriving a node with build_node does not change the annotations of the class it derives from'),
     'BN-6': ('bw.build_node', 'two classes generated by build_node from one unnamed base get different node ids'),
     'FS-9': ('fw.write_once_map', 'save / load interpreted over an abstract file system obey the laws of a write-once map keyed exactly by the node id'),
@@ -246,6 +251,9 @@ RULES: Dict[str, Tuple[str, str]] = {
     'FS-10': ('ha.test_and_create_atomic', 'no suspension point between the existence test of save and the creation of the file'),
     'OO-12': ('ha.error_scan_is_the_subdag', 'the error scan of a sub-dag answers for exactly the nodes of that sub-dag'),
     'ER-11': ('ha.task_registry_only_grows', 'the registry of created tasks, which run() scans for failures, is only added to during a run'),
+    'CC-13': ('ha.no_blocking_wait_on_loop', 'nothing that runs on the event-loop thread waits for another thread'),
+    'ER-12': ('ha.verdict_before_own_cancellation', 'the verdict of the run is read before the engine cancels its own tasks'),
+    'EX-14': ('ha.pool_job_follows_cancellation', 'a job queued in a pool is cancelled with the task that awaits it'),
     'EX-13': ('ha.executor_wrapper_transparent', 'the pool wrapper re-raises what a body raised unchanged (StopIteration aside)'),
     'OO-11': ('oo.candidate_started_lazily', 'the registry of started one-of candidates is only added to during a run'),
     'OO-10': ('oo.candidate_started_lazily', 'a one-of candidate is recorded as started only in the iteration of the candidate loop that starts it'),
@@ -290,6 +298,7 @@ RULES: Dict[str, Tuple[str, str]] = {
                                      'abstract interpretation of the store and the predicate)'),
     'RD-2': ('st.ready_strict', 'the readiness predicate is false for an absent, hidden or Recurrent predecessor result and true '
                                 'for visible final values (abstract interpretation over all store states)'),
+    'SW-7': ('st.case_selection_worlds', 'a returned label records its own case; a value no case has fails the run'),
     'SW-4': ('st.store_contract', 're-arming a node hides it in every store that readiness, ordering or routing reads'),
     'ST-1': ('st.store_contract', 'publishing into a store makes the entry visible with exactly the published value from every '
                                   'prior state (absent, hidden, visible)'),
@@ -712,6 +721,14 @@ _add('C02', 'ER-11')
 _add('C05', 'ER-11', 'OO-4')
 _add('C12', 'EX-13')
 _add('C17', 'EX-13', 'RD-7')
+_add('C06', 'CC-13')
+_add('C13', 'EX-14')
+_add('C09', 'SW-7')
+_add('C04', 'EX-5')
+_add('C05', 'ER-12')
+_add('C14', 'LK-1', 'LK-2')
+_add('C12', 'EX-5')
+_add('C17', 'CC-13')
 _add('C10', 'OO-12')
 _add('C05', 'OO-12')
 _add('C18', 'FS-10')
@@ -765,7 +782,8 @@ _also('C05', 'the error scan iterates the task registry in creation order')
 EXTRA_GROUPS = {
     # additional rule groups that report under an existing rule id
     'C03': ['st.ready_vs_active_subgraph', 'st.kwargs_hidden_verdict'],
-    'C11': ['st.ready_vs_active_subgraph', 'st.kwargs_hidden_verdict'],
+    'C11': ['st.ready_vs_active_subgraph', 'st.kwargs_hidden_verdict', 'rcw.recurrent_worlds'],
+    'C02': ['rcw.recurrent_worlds'],
     'C09': ['st.kwargs_hidden_verdict'],
     'C16': ['bw.recurrent_validations'],
 }
